@@ -99,6 +99,15 @@ def gen_prog(rnd):
             inc.spell = spell              # another spelling of the same path is the same file
             hf.stmts.append(inc)
     if rnd.random() < 0.25:
+        # two different files with the same base name in two directories, one of them '.once'-guarded: each is a file of its own
+        for d, guard in (("da7", rnd.random() < 0.5), ("db7", True)):
+            nm = f"{d}/defs7.mac"
+            body = ([apm.simple(".once")] if guard else []) + [apm.simple(".even"), apm.label(d + "lab"), apm.data(".word", apm.num(rnd.randrange(0x10000))),
+                                                                apm.assign(d + "k", apm.num(rnd.choice(vals)))]
+            prog.aux[nm] = apm.SrcFile(nm, body)
+            hf = rnd.choice(prog.files)
+            hf.stmts += [apm.simple(".even"), apm.include(nm)]
+    if rnd.random() < 0.25:
         # linked so high that the image runs past the end of the address space: labels beyond it keep their arithmetic value (200002 ...)
         for f in prog.files:
             for s in f.stmts:
@@ -289,7 +298,9 @@ def run_case(case, cnt=None, root=None):
             by_file.setdefault(fn, {})[name] = v
         seen_files = {}
         for fn, rows in sections:
-            base = os.path.basename(fn)
+            nfn = os.path.normpath(fn)
+            # (the reference names a file by its path below the source directory: 'da7/defs7.mac' and 'db7/defs7.mac' are two files)
+            base = next((k for k in sorted(by_file, key=len, reverse=True) if nfn == k or nfn.endswith(os.sep + k)), os.path.basename(fn))
             seen_files[base] = seen_files.get(base, 0) + 1
             if base not in by_file:
                 if rows:
